@@ -1,9 +1,10 @@
 (** Property C10: rejections are justified, correctly classified, and carry the CLI exit contract.
     This file contains only the pinned statements; proofs live in Errors/KindTable.v,
-    Errors/Suggest.v and ParseProofs/ErrorSound.v. *)
+    Errors/Suggest.v, ParseProofs/ErrorSound.v and ParseProofs/KindSound.v (round 2). *)
 From ClapModel Require Import Base.Bytes Base.Machine Base.Utf8.
-From ClapModel Require Import Parse.Cmd Parse.Build Parse.Matcher Parse.Errors Parse.Validator Parse.Parser.
+From ClapModel Require Import Parse.Cmd Parse.Build Parse.Valid Parse.Matcher Parse.Errors Parse.Validator Parse.Parser.
 From ClapModel Require Import Gen.ErrorTables Errors.KindTable Errors.Suggest ParseProofs.ErrorSound.
+From ClapModel Require Import ParseProofs.Totality ParseProofs.Provenance ParseProofs.KindSound.
 From Coq Require Import ZArith QArith String List.
 From RecordUpdate Require Import RecordSet.
 Import RecordSetNotations.
@@ -242,3 +243,218 @@ Theorem C10_validate_kinds : forall c m k a,
   In k [EDisplayHelpOnMissing; EMissingSubcommand; EArgumentConflict; EMissingRequiredArgument].
 Proof. exact validate_kinds. Qed.
 Print Assumptions C10_validate_kinds.
+
+(** ** round 2: whole-parse soundness of EVERY error kind, for all inputs of class [plain]
+    (valid definitions without short flag subcommands).  Vocabulary (ParseProofs/KindSound.v): [occurs c T a] -- a
+    token of the line [T] names the argument [a]; [faithful c T m] -- every explicit entry of the matcher [m] is
+    accounted for by the line or the environment; [origin c T v] (Provenance.v) -- [v] is a piece of a token of [T],
+    of a declared value or an action literal; [reach c T c' T'] -- [c'] is a level of the subcommand chain below [c]
+    and parses the tail [T'] of [T]. *)
+
+(** the vocabulary, spelled out *)
+Theorem C10_occurs_spec : forall c T a, occurs c T a <->
+  exists tok, In tok T /\
+    ((exists f ok v, to_long tok = Some (f, ok, v) /\ long_selects c f a)
+     \/ (exists r, to_short tok = Some r /\
+                   exists n ch r', sf_next (skipn n r) = Some (inl ch, r') /\ get_short c ch = Some a)
+     \/ a_index a <> None).
+Proof. exact occurs_spec. Qed.
+Print Assumptions C10_occurs_spec.
+
+Theorem C10_long_selects_spec : forall c f a, long_selects c f a <->
+  (get_long c f = Some a
+   \/ (is_set s_infer_long c = true /\ In a (c_args c) /\ a_is_positional a = false /\
+       ((exists l, a_long a = Some l /\ is_prefix f l = true)
+        \/ existsb (fun p => is_prefix f (fst p)) (a_aliases a) = true))).
+Proof. exact long_selects_spec. Qed.
+Print Assumptions C10_long_selects_spec.
+
+Theorem C10_selId_spec : forall c T i, selId c T i <->
+  exists a, (In a (c_args c) /\ occurs c T a) /\ (a_id a = i \/ In i (groups_for_arg c (a_id a))).
+Proof. exact selId_spec. Qed.
+Print Assumptions C10_selId_spec.
+
+Theorem C10_envId_spec : forall c i, envId c i <->
+  exists a, In a (c_args c) /\ a_env a <> None /\ (a_id a = i \/ In i (groups_for_arg c (a_id a))).
+Proof. exact envId_spec. Qed.
+Print Assumptions C10_envId_spec.
+
+Theorem C10_faithful_spec : forall c T m, faithful c T m <->
+  forall i ma, In (i, ma) (explicit_entries m) ->
+    (m_source ma = Some SCmdLine /\ selId c T i) \/ (m_source ma = Some SEnv /\ (selId c T i \/ envId c i)).
+Proof. exact faithful_spec. Qed.
+Print Assumptions C10_faithful_spec.
+
+Theorem C10_Breaks_spec : forall c0 argv e, Breaks c0 argv e <->
+  exists b T c' T', suffix_of T argv /\ reach (build_self (c0 <| c_bin_name := b |>)) T c' T' /\ kind_justified c' T' e.
+Proof. exact Breaks_spec. Qed.
+Print Assumptions C10_Breaks_spec.
+
+(** the invariant of the token loop (every loop and matcher state): the matcher stays faithful to the line, and an
+    error is a classified reaction error, an unknown token, NoEquals / "flag given a value" of a named token, or a
+    non-UTF-8 external subcommand *)
+Theorem C10_loop_invariant : forall c T,
+  (forall a, In a (c_args c) -> find_arg c (a_id a) = Some a) ->
+  forall toks ls st, suffix_of toks T -> K c T st -> LI' (l_pst ls) st ->
+  okE (lr_post c T) (loop_cause c T) (parse_loop c toks ls st).
+Proof. exact parse_loop_K. Qed.
+Print Assumptions C10_loop_invariant.
+
+(** every level of the subcommand recursion: success leaves a faithful matcher, an error is a classified error of
+    this level or of a level below *)
+Theorem C10_level_sites : forall fuel c toks st0, tree_ok fuel c -> K c toks st0 ->
+  okE (K c toks) (breaks c toks) (get_matches_with fuel c toks st0).
+Proof. exact gmw_breaks. Qed.
+Print Assumptions C10_level_sites.
+
+Theorem C10_rejection_sites : forall c0 toks e, plain c0 = true -> valid c0 = true ->
+  do_parse c0 toks = OErr e -> breaks (build_self c0) toks e.
+Proof. exact do_parse_breaks. Qed.
+Print Assumptions C10_rejection_sites.
+
+Theorem C10_accepted_faithful : forall c0 toks st, plain c0 = true -> valid c0 = true ->
+  get_matches_with (S (S (depth (build_self c0)))) (build_self c0) toks ps_new = ROk st ->
+  faithful (build_self c0) toks (mt st).
+Proof. exact accepted_faithful. Qed.
+Print Assumptions C10_accepted_faithful.
+
+Theorem C10_level_justified : forall c T e, level_breaks c T e -> kind_justified c T e.
+Proof. exact level_breaks_justified. Qed.
+Print Assumptions C10_level_justified.
+
+(** THE theorem: a rejection of the whole parse breaks, at some level of the subcommand chain, the rule its kind names *)
+Theorem C10_kind_sound : forall c0 argv e, plain c0 = true ->
+  (forall b, valid (c0 <| c_bin_name := b |>) = true) -> valid c0 = true ->
+  parse_top c0 argv = OErr e -> Breaks c0 argv e.
+Proof. exact kind_sound. Qed.
+Print Assumptions C10_kind_sound.
+
+(** what [kind_justified] says, kind by kind *)
+Theorem C10_missing_justified : forall c T e, kind_justified c T e -> e_kind e = EMissingRequiredArgument ->
+  exists m, faithful c T m /\ check_explicit m (e_arg e) PIsPresent = false /\
+    (rule_requires c m (e_arg e)
+     \/ (exists a, In a (c_args c) /\ a_id a = e_arg e /\ ErrorSound.cond_required m a)
+     \/ (exists p, In p (positionals c) /\ a_id p = e_arg e /\ is_set s_allow_missing_pos c = false)).
+Proof. exact justified_missing. Qed.
+Print Assumptions C10_missing_justified.
+
+(** "a rule asks for x", declaratively: a required argument / group, what a required or present group requires, or
+    the [requires] rules (closed transitively) that hold of the explicit occurrence of a present argument *)
+Theorem C10_rule_requires_spec : forall c mt x, rule_requires c mt x <->
+  (exists a, In a (c_args c) /\ a_required a = true /\ a_id a = x)
+  \/ (exists g, In g (c_groups c) /\ g_required g = true /\ (g_id g = x \/ In x (g_requires g)))
+  \/ (exists i ma g, In (i, ma) (explicit_entries mt) /\ find_arg c i = None /\ find_group c i = Some g /\ In x (g_requires g))
+  \/ (exists i ma, In (i, ma) (explicit_entries mt) /\ req_by c ma i x).
+Proof. exact rule_requires_spec. Qed.
+Print Assumptions C10_rule_requires_spec.
+
+Theorem C10_req_by_spec : forall c m root y, req_by c m root y <->
+  (exists a p, find_arg c root = Some a /\ In (p, y) (a_requires a) /\ Relations.holds p m)
+  \/ (exists x b p, req_by c m root x /\ find_arg c x = Some b /\ In (p, y) (a_requires b) /\ Relations.holds p m).
+Proof. exact req_by_spec. Qed.
+Print Assumptions C10_req_by_spec.
+
+(** the requirement set the validator computes contains only ids a rule asks for (converse of C03's direction) *)
+Theorem C10_requirement_set_sound : forall c mt req x,
+  gather_requires c mt (required_graph c) = Some req -> In x req -> rule_requires c mt x.
+Proof. exact requirement_set_sound. Qed.
+Print Assumptions C10_requirement_set_sound.
+
+Theorem C10_missing_rule_sound : forall c mt x,
+  validate c mt = VErr EMissingRequiredArgument x ->
+  check_explicit mt x PIsPresent = false /\
+  (rule_requires c mt x
+   \/ (exists a, In a (c_args c) /\ a_id a = x /\ ErrorSound.cond_required mt a)
+   \/ (exists p, In p (positionals c) /\ a_id p = x /\ is_set s_allow_missing_pos c = false)).
+Proof. exact missing_rule_sound. Qed.
+Print Assumptions C10_missing_rule_sound.
+
+Theorem C10_conflict_justified : forall c T e, kind_justified c T e -> e_kind e = EArgumentConflict ->
+  (accounted c T (e_arg e) /\ is_some (find_arg c (e_arg e)) = true /\
+   exists other, accounted c T other /\ other <> e_arg e /\
+                 (Relations.declares c (e_arg e) other \/ Relations.declares c other (e_arg e)))
+  \/ (accounted c T (e_arg e) /\
+      exists a m, find_arg c (e_arg e) = Some a /\ a_exclusive a = true /\ faithful c T m /\
+                  (2 <= length (filter (fun p => is_some (find_arg c (fst p))) (explicit_entries m)))%nat)
+  \/ (exists a s st, In a (c_args c) /\ srcOKarg c T a s /\ e_arg e = a_id a /\ K c T st /\
+                     mt_contains (mt st) (a_id a) = true /\
+                     (is_set s_args_override_self c || mem_id (a_id a) (a_overrides a)) = false /\
+                     In (a_get_action a) [ASet; ASetTrue; ASetFalse])
+  \/ (exists tok, In tok T /\ unknown_cause c tok e)
+  \/ is_set s_args_negate_subs c = true.
+Proof. exact justified_conflict. Qed.
+Print Assumptions C10_conflict_justified.
+
+Theorem C10_count_kind_justified : forall c T e, kind_justified c T e ->
+  In (e_kind e) [ETooManyValues; ETooFewValues; EWrongNumberOfValues] ->
+  (exists a raw r, In a (c_args c) /\ occurs c T a /\ Forall (origin c T) raw /\ a_num a = Some r /\
+                   e_arg e = a_id a /\ count_breaks (e_kind e) r (N.of_nat (length raw)))
+  \/ (e_kind e = ETooManyValues /\ exists tok, In tok T /\ unneeded_cause c tok (e_arg e)).
+Proof. exact justified_count. Qed.
+Print Assumptions C10_count_kind_justified.
+
+Theorem C10_noequals_justified : forall c T e, kind_justified c T e -> e_kind e = ENoEquals ->
+  exists tok, In tok T /\ noeq_cause c tok (e_arg e).
+Proof. exact justified_noeq. Qed.
+Print Assumptions C10_noequals_justified.
+
+Theorem C10_value_kind_justified : forall c T e, kind_justified c T e ->
+  In (e_kind e) [EInvalidValue; EValueValidation; EInvalidUtf8] ->
+  (exists a s vp v, In a (c_args c) /\ srcOKarg c T a s /\ a_vp a = Some vp /\ origin c T v /\
+                    vp_parse vp v = Some (e_kind e) /\ ~ in_lang vp v /\ e_arg e = a_id a)
+  \/ (exists v, In v T /\ is_set s_allow_external c = true /\
+                vp_parse (opt_default VPOsString (c_ext_vp c)) v = Some (e_kind e) /\
+                ~ in_lang (opt_default VPOsString (c_ext_vp c)) v)
+  \/ (e_kind e = EInvalidValue /\
+      exists a raw r, In a (c_args c) /\ occurs c T a /\ Forall (origin c T) raw /\ a_num a = Some r /\
+                      e_arg e = a_id a /\ count_breaks (e_kind e) r (N.of_nat (length raw)))
+  \/ (e_kind e = EInvalidUtf8 /\ exists tok, In tok T /\ utf8_valid tok = false /\ is_set s_allow_external c = true).
+Proof. exact justified_value. Qed.
+Print Assumptions C10_value_kind_justified.
+
+Theorem C10_unknown_kind_justified : forall c T e, kind_justified c T e -> unknown_kind (e_kind e) ->
+  (exists tok, In tok T /\ unknown_cause c tok e) \/ (exists names, suffix_of names T /\ e = help_walk c names).
+Proof. exact justified_unknown. Qed.
+Print Assumptions C10_unknown_kind_justified.
+
+(** non-vacuity: the hypotheses of [C10_kind_sound] hold of a command with a required option, a ranged integer
+    option, conflicting flags, a require-equals option and a two-valued option; twelve lines, eleven kinds *)
+Theorem C10_kind_sound_nonvacuous :
+  plain ex_cmd = true /\ valid ex_cmd = true /\ (forall b, valid (ex_cmd <| c_bin_name := b |>) = true)
+  /\ map ex_kind
+       [ [];
+         [ex_dd [110;97]; [120]];
+         [ex_dd [110;97]; [120]; ex_dd [102;102]; ex_dd [111;111]];
+         [ex_dd [110;97]; [120]; ex_dd [110;97]; [121]];
+         [ex_dd [110;97]; [120]; ex_dd [107;107]; [57;57;57]];
+         [ex_dd [110;97]; [120]; ex_dd [113;113]; [118]];
+         [ex_dd [110;97]; [120]; ex_dd [102;102;61;120]];
+         [ex_dd [110;97]; [120]; ex_dd [119;119]; [118]];
+         [ex_dd [110;97]; [120]; ex_dd [122;122]];
+         [ex_dd [110;97]; [255]];
+         [ex_dd [104;101;108;112]];
+         [ex_dd [110;97]] ]
+     = [Some EMissingRequiredArgument; None; Some EArgumentConflict; Some EArgumentConflict; Some EValueValidation;
+        Some ENoEquals; Some ETooManyValues; Some EWrongNumberOfValues; Some EUnknownArgument; Some EInvalidUtf8;
+        Some EDisplayHelp; Some EInvalidValue].
+Proof. exact kind_sound_nonvacuous. Qed.
+Print Assumptions C10_kind_sound_nonvacuous.
+
+(** no spurious rejection in contrapositive form (with C01's totality): a line for which no error is justified at
+    any level of the chain is accepted *)
+Theorem C10_unbroken_accepted : forall c0 argv, plain c0 = true ->
+  (forall b, valid (c0 <| c_bin_name := b |>) = true) -> valid c0 = true ->
+  (forall e, ~ Breaks c0 argv e) -> exists m, parse_top c0 argv = OOk m.
+Proof. exact unbroken_accepted. Qed.
+Print Assumptions C10_unbroken_accepted.
+
+(** finding (model and crate agree): a conditional [requires_if] rule met along a [requires] chain is tested against
+    the value of the ROOT argument -- `--aa v --bb w` with [a.requires(b)], [b.requires_if("v", y)] is rejected with
+    MissingRequiredArgument(y) although [b] = "w"; with `--aa z` the same line is accepted *)
+Theorem C10_requires_if_chain_refuted :
+  plain quirk_cmd = true /\ valid quirk_cmd = true /\
+  (exists e, parse_top quirk_cmd [[112]; ex_dd [97; 97]; [118]; ex_dd [98; 98]; [119]] = OErr e
+             /\ e_kind e = EMissingRequiredArgument /\ e_arg e = [121]) /\
+  (exists m, parse_top quirk_cmd [[112]; ex_dd [97; 97]; [122]; ex_dd [98; 98]; [119]] = OOk m).
+Proof. exact requires_if_chain_witness. Qed.
+Print Assumptions C10_requires_if_chain_refuted.
